@@ -1980,6 +1980,22 @@ func (interp *Interpreter) cfg(root *node, sc *scope, importPath, pkgName string
 			n.tnext = nil
 			n.val = sc.def
 			for i, c := range n.child {
+				if c.findex != i || c.level != 0 || c.rval.IsValid() || c.kind != binaryExpr && c.kind != unaryExpr && !isRegularCall(c) {
+					continue
+				}
+				// The operand is computed directly in the location of result i. If another operand
+				// reads this result, a named one, compute it in its own location instead: all
+				// the operands are evaluated before the results are assigned.
+				for j, c1 := range n.child {
+					c1.Walk(func(d *node) bool {
+						if j != i && d.kind == identExpr && d.sym != nil && d.findex == i && d.level == 0 {
+							c.findex = sc.add(c.typ)
+						}
+						return c.findex == i
+					}, nil)
+				}
+			}
+			for i, c := range n.child {
 				var typ *itype
 				typ, err = nodeType(interp, sc.upperLevel(), returnSig.child[2].fieldType(i))
 				if err != nil {
